@@ -34,6 +34,7 @@ type Context struct {
 	recDone   map[*ssa.Function]bool
 	findings  *FindingsFile
 	rules     []*EffectRule
+	prop      string // the property being checked ("" = any)
 }
 
 func (c *Context) sourceLine(file string, line int) string {
@@ -76,6 +77,23 @@ func (c *Context) contractOf(fn *ssa.Function) *FuncContract {
 	name := fnDisplayName(fn)
 	for _, fc := range cs {
 		if fc.Func == name {
+			return fc
+		}
+	}
+	return nil
+}
+
+// callContractOf is the contract a call site may rely on: one that belongs to the property being checked (its
+// preconditions are then obligations of that check), or a trusted / pure declaration. Contracts written for other
+// properties are not used (the callee is inlined or havocked instead, which only loses information).
+func (c *Context) callContractOf(fn *ssa.Function) *FuncContract {
+	p := originPkgPath(fn)
+	name := fnDisplayName(fn)
+	for _, fc := range c.contracts[p] {
+		if fc.Func != name {
+			continue
+		}
+		if fc.Trusted || fc.Pure || c.prop == "" || fc.hasProp(c.prop) && (len(fc.Clauses) > 0 || len(fc.Assigns) > 0 || fc.Frame || len(fc.EffectCl) == 0) {
 			return fc
 		}
 	}
